@@ -8,6 +8,7 @@ import (
 	"golang.org/x/tools/go/ssa"
 
 	"lbcheck/eng"
+	"lbcheck/ir"
 )
 
 func init() {
@@ -274,6 +275,11 @@ func runC16(c *eng.Ctx) {
 	ruleStreamConfigPlumbing(c, "OptimisticConcurrencyControl")
 	c.Floor(3)
 
+	// ---- R16.9 the server's own publishes waive the expected-offset check
+	c.Rule("R16.9", "K6")
+	ruleInternalPublishesWaive(c)
+	c.Floor(2)
+
 	// ---- R16.5
 	c.Rule("R16.5", "K1")
 	if fn := c.Fn("server.(*apiServer).ensurePublishPreconditions"); fn != nil {
@@ -314,4 +320,47 @@ func runC16(c *eng.Ctx) {
 		}
 	}
 	c.Floor(3)
+}
+
+// ruleInternalPublishesWaive (R16.9, shared with C11 and C18): a PublishRequest that the server builds itself (cursors,
+// activity stream) carries ExpectedOffset = -1. The zero value 0 is a claim ("this message will get offset 0"), not a waiver:
+// on a stream with optimistic concurrency control — which `streams.concurrency.control` turns on for ALL streams, the
+// internal ones included — every such publish after the first is refused.
+func ruleInternalPublishesWaive(c *eng.Ctx) {
+	p := c.P
+	n := 0
+	for _, fn := range p.Funcs {
+		if fn.Pkg == nil || !c.P.IsModuleFunc(fn) {
+			continue
+		}
+		eng.Instrs(fn, func(in ssa.Instruction) {
+			al, ok := in.(*ssa.Alloc)
+			if !ok || al.Referrers() == nil {
+				return
+			}
+			pt, ok := al.Type().(*types.Pointer)
+			if !ok {
+				return
+			}
+			nt, ok := pt.Elem().(*types.Named)
+			if !ok || nt.Obj().Name() != "PublishRequest" || nt.Obj().Pkg() == nil || !strings.HasSuffix(nt.Obj().Pkg().Path(), "liftbridge-api/go") && !strings.Contains(nt.Obj().Pkg().Path(), "liftbridge-api") {
+				return
+			}
+			n++
+			waived := false
+			for _, r := range *al.Referrers() {
+				if fa, isFA := r.(*ssa.FieldAddr); isFA && eng.FieldNameOf(fa) == "ExpectedOffset" && fa.Referrers() != nil {
+					for _, rr := range *fa.Referrers() {
+						if st, isSt := rr.(*ssa.Store); isSt && eng.IntConst(-1)(st.Val) {
+							waived = true
+						}
+					}
+				}
+			}
+			c.Check(waived, "publish request built in "+ir.FuncKey(ir.Outermost(fn))+" waives the expected offset", c.Pos(al), "ExpectedOffset: -1", "the server publishes with ExpectedOffset left at 0: with concurrency control enabled for all streams every such publish after the first one is refused as 'incorrect expected offset' (cursors can be stored once, activity events stop)")
+		})
+	}
+	if n == 0 {
+		c.Unresolved("PublishRequest literals built by the server")
+	}
 }
